@@ -33,7 +33,7 @@ ASSUMPTIONS = [
     "RGB coordinate-carrying frames only (is_rgb=True)",
 ]
 TIERS = {
-    "quick": {"runs": 3000, "time_cap_s": 90, "chunk": 20, "det_inproc": 5, "det_fresh": 3, "minimise_s": 60},
+    "quick": {"runs": 5000, "time_cap_s": 90, "chunk": 20, "det_inproc": 5, "det_fresh": 3, "minimise_s": 60},
     "thorough": {"runs": 200000, "time_cap_s": 1200, "chunk": 50, "det_inproc": 20, "det_fresh": 10, "minimise_s": 180},
 }
 
